@@ -44,7 +44,9 @@ THEOREMS = ['binary_partition_independent', 'frames_of_messages', 'line_partitio
             'delivers_parsed_messages', 'delivers_parsed_messages_c01', 'receive_delivers_sent_c01',
             'delivers_parsed_messages_after_handshake', 'delivers_parsed_messages_after_handshake_c01',
             'dispatch_table_ok', 'recv_delivers_sent', 'recv_delivers_sent_c01',
-            'recv_delivers_sent_after_handshake_c01', 'recv_delivers_calls_c01', 'recvRun_aborts_at_parse_error']
+            'recv_delivers_sent_after_handshake_c01', 'recv_delivers_calls_c01', 'recvRun_aborts_at_parse_error',
+            'history_independent', 'interleaved_delivers_messages_sent',
+            'interleaved_delivers_messages_sent_after_handshake']
 TRUSTED_BASE = [
     'bytes.split / bytes.join / slicing / struct.unpack("I") mirrored by hand in Proto/Framing.lean '
     '(validated by the correspondence streams)',
@@ -560,6 +562,7 @@ class Conn:
             lose0()
         tr.loseConnection = lose
 
+        self.exc = None
         self.crashed = None
         self.dead = False          # the reactor no longer reads from it (exception escaped / connectionLost)
         self.raised = 0
@@ -624,6 +627,19 @@ class Conn:
                 _NOTED.add('connectionLost')
                 self.ctx.note('connectionLost raised %s: %s (ignored)' % (type(e).__name__, e))
 
+    def release(self):
+        """Break the reference cycles the harness itself built around the protocol, so that the object is freed now."""
+        import gc
+        p = self.p
+        p.hook = None
+        try:
+            del self.tr.loseConnection
+        except AttributeError:
+            pass
+        self.wrap = self.p = self.tr = self.exc = None
+        del p
+        gc.collect(0)
+
     def obs(self):
         ctx, p, tr = self.ctx, self.p, self.tr
         ctx.impl_trace()
@@ -674,30 +690,40 @@ def observe_history(ctx, sc):
     on which an exception escaped `dataReceived` is dropped as the reactor drops it (connectionLost, no further reads:
     its later 'read' events are skipped); the OTHER connections go on.  A connection whose scheduled handler raised
     (`raise_at`) is dropped too unless it says `after_raise: keep`.  -> list of observations, one per connection."""
-    conns = {}
+    conns, done = {}, {}
+
+    def gone(k):
+        # the reactor forgets a lost connection: nothing of it is kept alive by the harness (a later connection may get
+        # the same id()), only what was observed
+        c = conns.pop(k)
+        done[k] = c.obs()
+        c.release()
     for ev in sc['events']:
         op, k = ev[0], ev[1]
         if op == 'open':
             conns[k] = Conn(ctx, sc['conns'][k])
             continue
-        c = conns[k]
+        c = conns.get(k)
+        if c is None:
+            continue                       # lost before: the reactor delivers nothing more to it
         if op == 'read':
-            if c.dead:
-                continue
             r = c.feed(bytes.fromhex(ev[2]))
             if r == 'crashed':
                 c.lose(c.exc)
+                gone(k)
             elif r == 'handler' and c.sc.get('after_raise') != 'keep':
                 c.lose(HandlerError('handler'))
+                gone(k)
         elif op == 'fd':
-            if not c.dead:
-                c.p.fileDescriptorReceived(ev[2])
+            c.p.fileDescriptorReceived(ev[2])
         elif op == 'lose':
-            if not c.dead:
-                c.lose()
+            c.lose()
+            gone(k)
         else:
             raise ValueError(op)
-    return [conns[k].obs() if k in conns else None for k in range(len(sc['conns']))]
+    for k in list(conns):
+        done[k] = conns[k].obs()
+    return [done.get(k) for k in range(len(sc['conns']))]
 
 
 _MISSING = set()
@@ -890,8 +916,14 @@ class Batch:
         lines, where = [], []
         for k, (_, sc, _, _) in enumerate(items):
             if sc['mode'] == 'multi':
+                # the whole history through the model's `runHist` (command H: framing of every connection), and the
+                # composed model (command P) for the connections that ask for it
+                hl, _ = history_model_line(sc, obs[k])
+                if hl is not None:
+                    lines.append(hl)
+                    where.append((k, 'H'))
                 for j, csc, o in history_parts(sc, obs[k]):
-                    if not csc.get('no_model'):
+                    if csc.get('parse') and not csc.get('no_model'):
                         lines.append(model_line(csc, o['script']))
                         where.append((k, j))
             elif not sc.get('no_model'):
@@ -901,7 +933,8 @@ class Batch:
         out = dict(zip(where, mo)) if mo is not None else None
         for k, ((stream, sc, oracle, sample), o) in enumerate(zip(items, obs)):
             if sc['mode'] == 'multi':
-                report_history(ctx, stream, sc, o, out, k, oracle)
+                report_history(ctx, stream, sc, o, out, k, oracle,
+                               earlier=[it[1] for it in items[max(0, k - 6):k]])
                 continue
             nontrivial = bool(o['effects'])
             if 'compact_huge' in sc:
@@ -950,7 +983,17 @@ class Batch:
             if oracle:
                 key, what = classify(sc, o)
                 if key:
-                    ctx.violation(key, what, inp=shrink_sc(sc),
+                    inp = shrink_sc(sc)
+                    if convertible(sc) and key not in FRESH['keys']:
+                        # does this input reproduce the failure on its own, or did an earlier connection of this
+                        # process leave something behind?  (STATE_AUDIT M6 / G7: then the SEQUENCE is the input)
+                        key2, small, sk, remark = locate(ctx, as_history(sc), 0, key,
+                                                         [it[1] for it in items[max(0, k - 6):k]])
+                        if key2 != key:
+                            key, inp = key2, dict(small, failing_connection=sk)
+                        if remark:
+                            what = '%s; %s' % (what, remark)
+                    ctx.violation(key, what, inp=inp,
                                   observed={'delivered_raw': [clip(r.hex()) for r in o['raws']][:20],
                                             'n_delivered': len(o['raws']), 'exception': o['crashed']},
                                   expected={'n_sent': len(sc['sent']), 'rule': 'delivered == sent, in order'})
@@ -994,6 +1037,28 @@ def history_parts(sc, obs_list):
         yield k, csc, o
 
 
+def history_model_line(sc, obs_list):
+    """The driver line `H` of a history: the connections the model covers (handlers that raise are not in it), each
+    with its role and the recorded outcomes of its authenticator, and the reads that were delivered, in history order.
+    -> (line | None, the indices of the connections in the line)"""
+    parts = {k: (csc, o) for k, csc, o in history_parts(sc, obs_list) if not csc.get('no_model')}
+    included = sorted(parts)
+    if not included:
+        return None, []
+    ren = {k: i for i, k in enumerate(included)}
+    head = ['H', str(len(included))]
+    for k in included:
+        csc, o = parts[k]
+        head += ['0' if csc['mode'] in ('stub-server', 'real-server') else '1', o['script'] or '-']
+    left = {k: len(parts[k][1]['fed']) for k in included}
+    evs = []
+    for ev in sc['events']:
+        if ev[0] == 'read' and left.get(ev[1], 0) > 0:
+            left[ev[1]] -= 1
+            evs.append('%d:%s' % (ren[ev[1]], ev[2] or '-'))
+    return ' '.join(head + evs), included
+
+
 def judge_history(ctx, sc, obs_list):
     """The oracle of the statement applied to EVERY connection of the history: connection k delivered exactly the
     messages sent on connection k, each once, in order, identical content - whatever happened on the others.
@@ -1016,20 +1081,77 @@ def drop_connections(sc, keep):
     return d, ren
 
 
-def shrink_history(ctx, sc, k, key):
-    """Greedy: leave out the other connections one at a time, then the events behind the failing connection's last
-    one, as long as connection k still fails.  Every candidate is RUN (same process), never assumed."""
-    def fails(h, kk):
-        try:
-            bad = judge_history(ctx, h, observe_history(ctx, h))
-        except HarnessFault:
-            return False
-        return any(b[0] == kk for b in bad)
-    cur, ck = sc, k
-    while len(cur['conns']) > 1:
-        for cand in [i for i in range(len(cur['conns'])) if i != ck]:
+FRESH = {'left': 0, 'keys': set()}
+FRESH_BUDGET = 16
+_FRESH_CODE = (
+    "import sys, json, os\n"
+    "d = json.load(sys.stdin)\n"
+    "sys.path.insert(0, d['verif']); os.chdir(d['verif'])\n"
+    "from vlib import ctx as ctxmod\n"
+    "ctxmod.use_repo(d['repo'])\n"
+    "from harness import c04\n"
+    "c = ctxmod.Ctx('C04', 'quick', 0, d['repo'])\n"
+    "c.model_available = False\n"
+    "bad = c04.judge_history(c, d['history'], c04.observe_history(c, d['history']))\n"
+    "print('FRESH-RESULT ' + json.dumps([[x[0], x[1]] for x in bad]))\n")
+
+
+def fresh_fails(ctx, hist, k):
+    """Run the history in a FRESH interpreter (modules imported anew, nothing left by earlier scenarios) and judge it.
+    -> True / False: connection k fails there / does not; None: no budget left or the run itself failed.
+    Used only after a violation was found, to find out WHAT reproduces it (never to decide whether there is one)."""
+    import json
+    import os
+    import subprocess
+    import sys
+    if FRESH['left'] <= 0:
+        return None
+    FRESH['left'] -= 1
+    here = os.path.dirname(os.path.dirname(os.path.abspath(__file__)))
+    try:
+        r = subprocess.run([sys.executable, '-c', _FRESH_CODE], stdout=subprocess.PIPE, stderr=subprocess.PIPE,
+                           input=json.dumps({'verif': here, 'repo': ctx.repo, 'history': hist}).encode(), timeout=120)
+    except Exception:
+        return None
+    for line in r.stdout.decode('utf-8', 'replace').split('\n'):
+        if line.startswith('FRESH-RESULT '):
+            return any(x[0] == k for x in json.loads(line[len('FRESH-RESULT '):]))
+    return None
+
+
+def convertible(sc):
+    return (sc.get('mode') == 'multi' or not (sc.get('nest') or sc.get('raise_at') is not None or '_reads' in sc
+                                              or 'compact_huge' in sc or sum(len(r) for r in sc['reads']) > 400000))
+
+
+def as_history(sc):
+    """A single-connection scenario as a history of one connection."""
+    if sc.get('mode') == 'multi':
+        return sc
+    spec = {a: b for a, b in sc.items() if a not in ('reads', 'compact')}
+    fds = spec.pop('fds', None) or []
+    return {'mode': 'multi', 'family': 'sequence', 'conns': [spec],
+            'events': [['open', 0]] + [['fd', 0, f] for f in fds] + [['read', 0, r] for r in sc['reads']]}
+
+
+def concat_histories(hs):
+    """Histories one after the other in one process.  -> (history, offset of the last one's connections)"""
+    conns, events, off = [], [], 0
+    for h in hs:
+        off = len(conns)
+        conns += h['conns']
+        events += [[ev[0], ev[1] + off] + list(ev[2:]) for ev in h['events']]
+    return {'mode': 'multi', 'family': 'sequence', 'conns': conns, 'events': events}, off
+
+
+def minimise_fresh(ctx, hist, k):
+    """Greedy, every candidate RUN in a fresh interpreter: leave out the other connections one at a time (latest
+    first), then the events behind the failing connection's last one, while connection k still fails."""
+    cur, ck = hist, k
+    for _ in range(len(hist['conns'])):
+        for cand in sorted((i for i in range(len(cur['conns'])) if i != ck), reverse=True):
             h, ren = drop_connections(cur, [i for i in range(len(cur['conns'])) if i != cand])
-            if fails(h, ren[ck]):
+            if fresh_fails(ctx, h, ren[ck]):
                 cur, ck = h, ren[ck]
                 break
         else:
@@ -1037,12 +1159,37 @@ def shrink_history(ctx, sc, k, key):
     last = max((n for n, ev in enumerate(cur['events']) if ev[1] == ck), default=len(cur['events']) - 1)
     if last + 1 < len(cur['events']):
         h = dict(cur, events=cur['events'][:last + 1])
-        if fails(h, ck):
+        if fresh_fails(ctx, h, ck):
             cur = h
     return cur, ck
 
 
-def report_history(ctx, stream, sc, obs_list, out, k_item, oracle):
+def locate(ctx, hist, k, key, earlier):
+    """What reproduces the failure of connection k of `hist` (found in this process) from a fresh process?
+    -> (key, history, k, remark).  `earlier` = the scenarios that ran just before it in this process."""
+    if key in FRESH['keys'] or FRESH['left'] <= 0:
+        return key, hist, k, None
+    FRESH['keys'].add(key)
+    r = fresh_fails(ctx, hist, k)
+    if r is None:
+        return key, hist, k, None
+    remark = None
+    if not r:
+        # not from this input alone: state left behind by the scenarios before it
+        big, off = concat_histories([as_history(e) for e in earlier if convertible(e)] + [hist])
+        if not (earlier and fresh_fails(ctx, big, k + off)):
+            return key, hist, k, ('NOT reproduced from this input alone in a fresh process (nor behind the %d scenarios '
+                                  'that ran before it): it depends on what earlier scenarios of the run left in the '
+                                  'process' % len(earlier))
+        hist, k = big, k + off
+    small, sk = minimise_fresh(ctx, hist, k)
+    if len(small['conns']) > 1:
+        return ('delivery-depends-on-other-connection', small, sk,
+                'fails in a fresh process with the other connection(s) of this history, passes without them')
+    return key, small, sk, remark
+
+
+def report_history(ctx, stream, sc, obs_list, out, k_item, oracle, earlier=None):
     n_ev = len(sc['events'])
     total = sum(len(ev[2]) for ev in sc['events'] if ev[0] == 'read')
     ctx.case(stream, sample=(sc if total <= 1200 else {'mode': 'multi', 'family': sc.get('family'),
@@ -1053,6 +1200,14 @@ def report_history(ctx, stream, sc, obs_list, out, k_item, oracle):
     ctx.stat('%s:events=%s' % (stream, bucket(n_ev)))
     for key_, v in (sc.get('stats') or {}).items():
         ctx.stat('%s:%s=%s' % (stream, key_, v))
+    joint = {}
+    if out is not None and (k_item, 'H') in out:
+        _, included = history_model_line(sc, obs_list)
+        parts = out[(k_item, 'H')].split(' ;; ')
+        if len(parts) == len(included):
+            joint = dict(zip(included, parts))
+        else:
+            ctx.disagree(stream, sc, clip(out[(k_item, 'H')]), 'a history of %d connections' % len(included))
     for k, csc, o in history_parts(sc, obs_list):
         ctx.stat('%s:connection-mode=%s' % (stream, csc['mode']))
         ctx.stat('%s:delivered-per-connection=%s' % (stream, bucket(len(o['raws']))))
@@ -1060,26 +1215,18 @@ def report_history(ctx, stream, sc, obs_list, out, k_item, oracle):
             ctx.stat('%s:exception=%s' % (stream, o['crashed']))
         if refused_by_authenticator(csc, o['authenticated'], o['effects'], o['script']):
             ctx.stat('%s:not-authenticated(S3 only)' % stream)
+        if out is not None and k in joint:
+            compare_model(ctx, stream, dict(sc, disagreeing_connection=k, model='H'),
+                          {a: b for a, b in csc.items() if a != 'parse'}, o, joint[k])
         if out is not None and (k_item, k) in out:
-            compare_model(ctx, stream, dict(sc, disagreeing_connection=k), csc, o, out[(k_item, k)])
+            compare_model(ctx, stream, dict(sc, disagreeing_connection=k, model='P'), csc, o, out[(k_item, k)])
     if not oracle:
         return
     for k, key, what, csc, o in judge_history(ctx, sc, obs_list):
-        # the same reads on a connection of its own, now: when THAT is delivered correctly, what went wrong came from
-        # the other connections of the history (only the name of the finding depends on this run, not the verdict)
-        try:
-            solo_key = classify(csc, observe(ctx, dict(csc)))[0]
-        except HarnessFault:
-            solo_key = key
-        small, sk = shrink_history(ctx, sc, k, key)
-        if solo_key is None:
-            key = 'delivery-depends-on-other-connection'
-            what = ('connection %d of a history of %d connections in one process (%s): %s; the same reads on a connection '
-                    'of its own are delivered correctly' % (sk, len(small['conns']), sc.get('family'), what))
-        else:
-            what = 'connection %d of a history of %d connections in one process (%s): %s' % (
-                sk, len(small['conns']), sc.get('family'), what)
-        ctx.violation(key, what, inp=dict(small, failing_connection=sk),
+        key2, small, sk, remark = locate(ctx, sc, k, key, earlier or [])
+        what = 'connection %d of a history of %d connection(s) in one process (%s): %s%s' % (
+            sk, len(small['conns']), sc.get('family'), what, '; ' + remark if remark else '')
+        ctx.violation(key2, what, inp=dict(small, failing_connection=sk),
                       observed={'connection': sk, 'delivered_raw': [clip(r.hex()) for r in o['raws']][:20],
                                 'n_delivered': len(o['raws']), 'exception': o['crashed'],
                                 'reads_delivered_to_it': len(o['fed'])},
@@ -2036,6 +2183,7 @@ def run(ctx):
     SKIPPED.clear()
     _MISSING.clear()
     _NOTED.clear()
+    FRESH.update(left=FRESH_BUDGET, keys=set())
     del SERIALIZER_NOTES[:]
     import logging  # noqa
     from twisted.python import log as tlog  # noqa  (log.msg without observers is silent)
